@@ -267,6 +267,16 @@ func c09Handlers(rc *RC) {
 		j.Daemon = true
 	}
 	serveT := e.Serve(m)
+	// in a quarter of the runs the local side closes its output stream while the peer keeps sending
+	if ch.Chance("workload", 1, 4) {
+		at := time.Duration(ch.Range("workload", 0, 20)) * time.Millisecond
+		lc := rc.Spawn("local-close", func() {
+			simrt.Sleep(at)
+			e.Sess.Close()
+			rc.Fire("local-close")
+		})
+		lc.Daemon = true
+	}
 	n := ch.Range("workload", 1, 30)
 	var sb strings.Builder
 	var sample []string
@@ -304,6 +314,9 @@ func c09Handlers(rc *RC) {
 			}
 			e.Peer.Write(b[:k])
 			b = b[k:]
+			if ch.Chance("workload", 1, 3) {
+				simrt.Sleep(time.Duration(ch.Range("workload", 1, 10)) * time.Millisecond)
+			}
 		}
 		if cutMid || ch.Chance("workload", 1, 4) {
 			e.Peer.CloseWrite()
